@@ -172,6 +172,75 @@ def r_copyshape(f):
             R.inst(b.ident, "row loop visits [%s, %s) = the source rectangle's rows" % (show(lo, pn), show(hi, pn)), ok)
             if not ok:
                 R.fail(b.ident, "rows:%s..%s" % (show(lo, pn), show(hi, pn)), "%s: a row loop of copy_within visits rows [%s, %s) instead of the source rectangle's rows [src.0.1, src.1.1): rows outside the rectangle are shifted or rows inside it are skipped" % (b.ident, show(lo, pn), show(hi, pn)), b.where(srow[3]))
+    # copy_within, offsets: source row r lands on row r + (dest.1 - src.0.1), source columns [src.0.0, src.1.0) land on the
+    # columns starting at dest.0 - as polynomial identities over the parameters (loop variables are opaque atoms)
+    from .vgraph import Poly
+    for b in cw:
+        d = Dfx(b)
+        pn = b.param_names()
+        src = [loc for loc, nm in pn.items() if b.locals[loc] == "((usize, usize), (usize, usize))"]
+        dst = [loc for loc, nm in pn.items() if b.locals[loc] == "(usize, usize)"]
+        if len(src) != 1 or len(dst) != 1:
+            continue
+        S, D = src[0], dst[0]
+
+        def P(e):
+            e = strip(e)
+            cu = const_usize(e)
+            if cu is not None:
+                return Poly.const(cu)
+            if e[0] == "bin":
+                op = e[1].replace("WithOverflow", "").replace("Unchecked", "")
+                if op in ("Add", "Sub", "Mul"):
+                    a, c = P(e[2]), P(e[3])
+                    return a + c if op == "Add" else (a - c if op == "Sub" else a * c)
+            return Poly.atom(show(e, pn))
+        S01, S00, S10, D0, D1 = (P(("field", ("field", ("param", S), 0), 1)), P(("field", ("field", ("param", S), 0), 0)), P(("field", ("field", ("param", S), 1), 0)),
+                                 P(("field", ("param", D), 0)), P(("field", ("param", D), 1)))
+        for bi, t, fn in b.calls():
+            if fn and fn["name"] == "row_pair_mut" and len(t["args"]) == 3:
+                x, y = P(d.expr(t["args"][1])), P(d.expr(t["args"][2]))
+                n += 1
+                ok = (y - x) == (D1 - S01)
+                R.inst(b.ident, "row_pair_mut(s, d): d - s == dest.1 - src.0.1 (got %r)" % (y - x,), ok)
+                if not ok:
+                    R.fail(b.ident, "row-offset:%r" % (y - x,), "%s pairs source row %r with destination row %r: their distance is %r, not dest.1 - src.0.1 - the rows of the rectangle land on the wrong rows" % (b.ident, x, y, y - x), b.where(t["span"]))
+        # same-row case: slice::copy_within(src.0.0..src.1.0, dest.0) on the row
+        for bi, t, fn in b.calls():
+            if fn and fn["path"] == "core::slice::<impl [T]>::copy_within" and len(t["args"]) == 3:
+                r_ = strip(d.expr(t["args"][1]))
+                if r_[0] == "agg" and r_[1].endswith("Range::Range") and len(r_[2]) == 2:
+                    n += 1
+                    a0, a1, dd = P(r_[2][0]), P(r_[2][1]), P(d.expr(t["args"][2]))
+                    ok = a0 == S00 and a1 == S10 and dd == D0
+                    R.inst(b.ident, "same-row copy: row.copy_within(%r..%r, %r)" % (a0, a1, dd), ok)
+                    if not ok:
+                        R.fail(b.ident, "same-row:%r..%r->%r" % (a0, a1, dd), "%s moves columns [%r, %r) of a row to column %r; want [src.0.0, src.1.0) -> dest.0" % (b.ident, a0, a1, dd), b.where(t["span"]))
+        # column ranges of the per-row copy
+        for bi, t, fn in b.calls():
+            if not (fn and fn["name"] in ("copy_from_slice", "clone_from_slice") and len(t["args"]) == 2):
+                continue
+            def rng(e):
+                e = strip(e)
+                for x in walk(e):
+                    if x[0] == "call" and x[2] in ("index", "index_mut", "get_unchecked", "get_unchecked_mut") and len(x[3]) == 2:
+                        r_ = strip(x[3][1])
+                        if r_[0] == "agg" and r_[1].endswith("Range::Range") and len(r_[2]) == 2:
+                            return P(r_[2][0]), P(r_[2][1])
+                        if r_[0] == "call" and r_[2] == "clone" and r_[3]:
+                            r2 = strip(r_[3][0])
+                            r2 = strip(r2[1]) if r2[0] in ("ref", "refmut") else r2
+                            if r2[0] == "agg" and r2[1].endswith("Range::Range") and len(r2[2]) == 2:
+                                return P(r2[2][0]), P(r2[2][1])
+                return None
+            rd, rs = rng(d.expr(t["args"][0])), rng(d.expr(t["args"][1]))
+            if rd is None or rs is None:
+                continue
+            n += 1
+            ok = rs[0] == S00 and rs[1] == S10 and rd[0] == D0 and (rd[1] - rd[0]) == (S10 - S00)
+            R.inst(b.ident, "per-row copy: source columns [%r, %r) -> destination columns [%r, %r)" % (rs[0], rs[1], rd[0], rd[1]), ok)
+            if not ok:
+                R.fail(b.ident, "col-ranges:%r..%r<-%r..%r" % (rd[0], rd[1], rs[0], rs[1]), "%s copies columns [%r, %r) of the source row to columns [%r, %r) of the destination row; want [src.0.0, src.1.0) -> [dest.0, dest.0 + width)" % (b.ident, rs[0], rs[1], rd[0], rd[1]), b.where(t["span"]))
     R.require_floor(n, 8, "copy functions")
     return R, n
 
